@@ -201,6 +201,14 @@ impl<Left: Executor, Right: Executor> NestedLoopJoin<Left, Right> {
         &self.stats
     }
 
+    /// Width of the left input. It used to be taken from the first left row only, so with an empty left input a
+    /// RIGHT / FULL join padded its unmatched right rows with no NULLs at all and every operator above read the
+    /// wrong columns ("column index out of bounds").
+    pub(crate) fn with_left_cols(mut self, left_cols: usize) -> Self {
+        self.left_cols = left_cols;
+        self
+    }
+
     fn buffer_right(&mut self) -> RuntimeResult<()> {
         if self.right_buffered {
             return Ok(());
